@@ -1,1 +1,2 @@
-(* stub: to be written by group Csv *)
+(* C10 - A summary CSV reproduces the history it replaces.  (in progress) *)
+From ACB Require Import Model.Summary.
